@@ -55,7 +55,8 @@ pub struct StoreModel {
     pub store: Vec<Entry>,
     /// library store / free ids after the previous step (= before this one)
     last_stored: Vec<AP>,
-    last_free: Vec<(u64, u64)>,
+    /// free id intervals after the previous step (None before the first step)
+    last_free: Option<Vec<(u64, u64)>>,
     pub unmatched_acks: u64,
     pub resumes_nonempty: u64,
     pub offline_publishes: u64,
@@ -64,7 +65,7 @@ pub struct StoreModel {
 
 impl StoreModel {
     pub fn new() -> StoreModel {
-        StoreModel { store: vec![], last_stored: vec![], last_free: vec![], unmatched_acks: 0, resumes_nonempty: 0, offline_publishes: 0, persistent_accepts: 0 }
+        StoreModel { store: vec![], last_stored: vec![], last_free: None, unmatched_acks: 0, resumes_nonempty: 0, offline_publishes: 0, persistent_accepts: 0 }
     }
     fn remove(&mut self, id: u32, pred: impl Fn(&Entry) -> bool) -> bool {
         if let Some(i) = self.store.iter().position(|e| e.id() == id && pred(e)) {
@@ -166,7 +167,7 @@ impl Observer for StoreModel {
                                 format!("{what} for id {id} matches nothing in flight (in flight: q1 {:?}, q2 awaiting PUBREC {:?}, awaiting PUBCOMP {:?}) but was {} (errors {:?})", pre_app.out_q1, pre_app.out_q2_rec, pre_app.out_q2_comp, if delivered { "delivered" } else { "not reported as protocol error" }, st.errors()),
                             ));
                         }
-                        if stored_now != self.last_stored || free_now != self.last_free {
+                        if stored_now != self.last_stored || self.last_free.as_ref().map(|f| *f != free_now).unwrap_or(false) {
                             return Err(fail(
                                 "C06.unmatched_ack_changed_state",
                                 format!("{what}/{v}"),
@@ -278,7 +279,7 @@ impl Observer for StoreModel {
             Ok(())
         })();
         self.last_stored = stored_now;
-        self.last_free = free_now;
+        self.last_free = Some(free_now);
         result
     }
 }
